@@ -196,7 +196,8 @@ impl Ctx {
                 "environment".into(),
                 json!({
                     "TZ": std::env::var("TZ").unwrap_or_default(),
-                    "logging_passes": if self.prop == "C20" || std::env::var("VERIF_SINGLE_PASS").is_ok() { vec!["off"] } else { vec!["trace (sink logger, nexrad targets)", "off (reported)"] },
+                    "logging_passes": if self.prop == "C20" || std::env::var("VERIF_SINGLE_PASS").is_ok() { vec!["off"] } else { vec!["trace (sink logger, nexrad targets), wall clock set to 1986-07-01", "off, real wall clock (reported)"] },
+                    "wall_clock": "owned: the harness binary defines clock_gettime; CLOCK_REALTIME answers come from the harness (self-tested against chrono::Utc::now at start-up)",
                     "profile": "opt-level 2, overflow-checks on, debug-assertions off",
                 }),
             );
@@ -690,4 +691,6 @@ pub fn set_logging(trace: bool) {
 
 /// The process runs in a non-UTC zone with daylight-saving rules (POSIX TZ string, no tz database
 /// needed), so that any accidental use of local time shows: every property speaks of UTC instants.
+/// 1986-07-01T00:00:00Z: the wall clock of the first (trace-logging) pass.
+pub const PASS1_CLOCK_MS: i64 = 520_560_000_000;
 pub const HARNESS_TZ: &str = "CST6CDT,M3.2.0,M11.1.0";
